@@ -3,6 +3,7 @@ mod memops;
 mod modfam;
 mod lowfam;
 mod lowgen;
+mod iterfam;
 
 fn main() {
     common::install_panic_hook();
@@ -15,6 +16,7 @@ fn main() {
         "module" => modfam::main(&args[2..]),
         "lower" => lowfam::main(&args[2..]),
         "lower-gen" => lowgen::main(&args[2..]),
+        "iter" => iterfam::main(&args[2..]),
         f => {
             eprintln!("unknown family {}", f);
             std::process::exit(2);
